@@ -7,9 +7,9 @@ VERIF = os.path.dirname(os.path.dirname(os.path.abspath(__file__)))
 
 CLAIMS = {
     # id: (category, technique, level text, level_note, design_ref, engines)
-    'C17': ('proof', 'static analysis: type/item allow-list walk + MIR callee-closure census (rustc_private driver)',
+    'C17': ('proof', 'static analysis: type/item allow-list walk + MIR callee-closure census + address-observation census over typed HIR (rustc_private driver)',
             'Proof by types: every local ADT field is an owned value type without interior mutability or sharing, no '
-            'globals, no unsafe, every callee of every MIR body in a reviewed pure allow-list, last(&self), every Clone '
+            'globals, no unsafe, every callee of every MIR body in a reviewed pure allow-list, no expression of raw-pointer type and no pointer/reference/fn -> integer cast (an address never becomes data), last(&self), every Clone '
             'derived. These structural facts imply determinism, purity of last() and clone independence for every view '
             'and chain; they hold for all inputs and histories because no input is involved.',
             'Trusted: rustc front end (types, MIR calls), the allow-lists in sfa/e1_types.py, purity of num::Float ops on f32/f64. '
@@ -19,7 +19,7 @@ CLAIMS = {
             'Proof of the forwarding protocol for each of the 38 views: every path of update() forwards the raw value to each '
             'input child exactly once before reading it, uses the raw value for nothing else, writes no state before/without the '
             'gate, leaves the None path inert; combinators report Some only when all children do; children are used only through '
-            'View::update/View::last. By parametricity over the opaque child type this implies the chaining statement for all '
+            'View::update/View::last, and only from inside the View impl (constructors and other inherent methods never call them: R6); the inertness and no-raw-value clauses are decided a second time on the value graph (R3v, R2v), which sees through reference aliases and helpers. By parametricity over the opaque child type this implies the chaining statement for all '
             'pairs, triples and deeper chains, all N and all input streams (the argument is compositional).',
             'Trusted: rustc front end (resolved callees, binding ids), the recognised gate idioms (let-else / if-let / match on the child\'s last()). '
             'Bit-identity additionally needs the inner view to be deterministic (C17).',
@@ -27,97 +27,98 @@ CLAIMS = {
     'C14': ('proof', 'static analysis: gated-SSA value graph of last∘update matched against an operator spec table',
             'Proof over the symbolic value graph of last∘update of the nine combinators: the reported term is exactly the specified '
             'operator of the children\'s current outputs, Some exactly when all children report, with no dependence on pre-update '
-            'state. Terms are symbolic in every input, so the verdict covers all children, inputs and steps.',
+            'state, and the clip/constant parameter is stored exactly as passed to the constructor (S5). Terms are symbolic in every input, so the verdict covers all children, inputs and steps.',
             'Trusted: rustc front end, sfa/vg.py (value-graph construction), the spec table in sfa/e_c14.py. `>=` vs `>` in clips is not policed.',
             'DESIGN.md §5 C14', 'E2/VG'),
     'C18': ('proof', 'static analysis: Houdini-inferred inductive length invariants over the value graph + linear-integer entailment (N symbolic)',
             'Proof of bounded memory: for each of the 34 growable buffers (including those of inlined inner views) the largest '
             'inductive subset of a candidate family of length invariants (true after every constructor, preserved by every exit '
             'of update()) contains an upper bound that mentions constructor parameters/constants only; per-call scratch '
-            'allocations are parameter-bounded. N is symbolic, the invariant is inductive: the bound holds for every window '
+            'allocations are parameter-bounded; buffers inside tuple fields are tracked as places, buffers inside containers the analysis does not model, pushes onto untracked places and constructs the value graph does not understand are reported (fail closed). N is symbolic, the invariant is inductive: the bound holds for every window '
             'length and every stream length; chains are covered compositionally.',
             'Trusted: rustc front end, sfa/vg.py, sfa/solve.py (DBM / Fourier–Motzkin entailment), the Vec/VecDeque length algebra, '
             'the buffer type list (Vec, VecDeque, ...; other container types are rejected by C17 T1). Capacity (as opposed to length) is not modelled.',
             'DESIGN.md §5 C18', 'E3'),
     'C15': ('other', 'static analysis: panic-edge census from MIR + obligations discharged from inferred class invariants by linear-integer entailment',
-            'Every MIR Assert terminator (usize overflow, bounds check) and every call to a panicking std API (unwrap/expect/index/'
-            'remove/clamp) in view code is mapped to an obligation and discharged from the inferred inductive class invariant, '
+            'Every MIR Assert terminator (usize overflow, bounds check), every call to a panicking std API (unwrap/expect/index/'
+            'remove/clamp) and every explicit panic entry point (panic!/unreachable!/assert!/debug_assert! expansions) in view code is mapped to an obligation: explicit panics must sit on infeasible paths, integer/structural assertions must be entailed, float-valued assertions must follow from interval analysis, arithmetic on integers narrower than 64 bits must provably not overflow; each is and discharged from the inferred inductive class invariant, '
             'the path condition and loop ranges, with N symbolic (all window lengths the constructor accepts, all histories, all '
             'interleavings of update/last since last() cannot change state). An unmapped panic edge or an unproved obligation is a violation. '
             'Not a full proof of the property: internal finiteness assertions are decided only as far as the guard census goes.',
-            'Trusted: as C18, plus: counter + 1 cannot overflow; buffer elements are finite (comparator expect); the predicate-counter rule for BinaryEntropy.p. '
+            'Trusted: as C18, plus: a usize/u64 counter + 1 cannot overflow within 2^64 updates; buffer elements are finite (comparator expect); the predicate-counter rule for BinaryEntropy.p. '
             'Level other: the finiteness-assertion clause is only partially decided.',
             'DESIGN.md §5 C15', 'E3'),
     'C02': ('other', 'static analysis: inductive window-length invariants + mirror/extremum/Welford dataflow rules over the gated-SSA value graph',
             'Decides the structural clauses of C02 for all inputs, N and histories: exact window (len ≤ N inductive, each step len+1 or exactly N), '
             'zero-seeded sum aggregates whose eviction contribution mirrors the insertion contribution, extrema rescanned over the post-eviction '
-            'window whenever the evicted value may be the extremum, Welford counter == window length with post-operation divisors, BinaryEntropy '
+            'window whenever the evicted value may be the extremum, Welford counter == window length with post-operation divisors and m2 maintained by properly chained ±(x−mean_before)(x−mean_after) cross terms, every rescan visiting every element of the window, BinaryEntropy '
             'counting the same predicate on insert and evict, Roc base register. A necessary condition of the property, not the closed formulas.',
             'Trusted: rustc front end, sfa/vg.py, sfa/solve.py, spec tables. Not decided: that the closed formulas (sum/len, entropy, 2(x-min)/(max-min)-1, ...) are right, and the rounding-noise bound.',
             'DESIGN.md §5 C02', 'E5/E3'),
     'C03': ('other', 'static analysis: window invariants + state-cell census (register / mirrored accumulator / rescanned extremum / counted predicate / listed hold) over the value graph',
-            'For the 17 finite-memory views every place where old information could persist is shown to be of a kind that forgets; any other '
+            'For the 17 finite-memory views every place where old information could persist is shown to be of a kind that forgets (Welford aggregates on the strength of the counter/divisor/cross-term rules); any other '
             'self-referential or data-dependently held state cell is reported. Symbolic in inputs and N.',
             'Trusted: as C02. Not decided: exact cancellation of paired +g/−g (K itself), Alma 2N and PFE N+M−1 are taken from the statement.',
             'DESIGN.md §5 C03', 'E5/E3'),
     'C05': ('other', 'static analysis: mirror rule with register unification over the value graph + ratio-guard matching',
             'Rsi/MyRSI: exact window; gain/loss aggregates are zero-seeded accumulators whose eviction is the σ-image (new↦evicted, '
             'newest-predecessor↦oldest-predecessor register) of the insertion incl. tie predicate and divisor; predecessor registers advance correctly; '
-            'state never depends on the raw argument; ratio guards (100 when L=0, hold when G+L=0).',
+            'state never depends on the raw argument; ratio guards (100 when L=0, hold when G+L=0); the reported value is formed from the aggregates as the update leaves them (G-exit).',
             'Trusted: as C02. Not decided: 100−100/(1+G/L) ≡ 100G/(G+L), ±1/negation corollaries, rounding residue.',
             'DESIGN.md §5 C05', 'E5/E3'),
     'C12': ('other', 'static analysis: homogeneity-degree type inference over the value graph (fixpoint over state cells)',
             'Positive-scaling clause: every operation of the 28 tabled views is degree-consistent and the output degree is the tabled one, '
             'so x -> a·x (a > 0) multiplies the output by a^degree and leaves every branch unchanged in real arithmetic (bit-exactly for a a power of two).',
-            'Trusted: typing rules in sfa/e_typing.py, degree table from the property. One reviewed exception: Vst std=0 -> x (the statement\'s own degenerate case). '
+            'Trusted: typing rules in sfa/e_typing.py (float representation changes keep the degree; rounding/conversion to integers needs degree 0), degree table from the property. One reviewed exception: Vst std=0 -> x (the statement\'s own degenerate case). '
             'Offset invariance and negation symmetry are NOT decided.',
             'DESIGN.md §5 C12', 'E5'),
-    'C10': ('other', 'static analysis: linearity type inference (ZERO/COEF/LIN/TOP) over the value graph + data-dependent-branch census + steady-state DC gain from extracted linear forms',
+    'C10': ('other', 'static analysis: linearity type inference (ZERO/COEF/LIN/TOP) over the value graph + data-dependent-branch census + abstract interpretation in a linear-form domain (steady-state DC gain; forms from the initial state with one symbol per input)',
             'Linearity clause proved over the reals for the 8 linear views: all floats are linear forms with input-independent coefficients, no affine term, '
             'no data-dependent comparison; structural induction gives superposition for all streams, scalars and N. Window-average members additionally have the '
-            'exact-window/mirrored-accumulator structure that gives DC gain 1.',
+            'exact-window/mirrored-accumulator structure that gives DC gain 1. Second engine: from the constructor\'s initial state every reported value is a homogeneous linear form of the individual inputs (L-history), '
+            'and for Sma/Ema/Alma/LaguerreFilter its weights sum to 1 from the first output on (DC-first), for the enumerated configurations.',
             'Trusted: typing rules; real arithmetic (the f64 "up to rounding" half is not decided). DC gain: numeric, enumerated N; known finding CyberCycle N=4,5 (hence level other, not proof).',
             'DESIGN.md §5 C10', 'E4'),
-    'C04': ('other', 'static analysis: linearity typing (no data-dependent branch) + window/accumulator rules + convex-update term matching',
+    'C04': ('other', 'static analysis: linearity typing (no data-dependent branch) + window/accumulator rules + convex-update term matching + linear forms from the initial state (one symbol per input) compared with the stated recursion',
             'Sma/Ema/Alma: no data-dependent branch, exact window, mirrored sum/weight aggregates, Ema x·w+e·(1−w) with w = alpha/(N+1) ∈ (0,1] and '
-            'data-independent seed, Alma centre/width expressions and positive stored weights — which imply the interval, constant, monotonicity and affine clauses over the reals.',
+            'data-independent seed, Alma centre/width expressions and positive stored weights; for N = 1..12 (40 thorough) the forms reported from the initial state are coefficient-wise the recursion e_0 = x_0, e_t = w·x_t + (1−w)·e_(t−1) (Ema, default and custom alpha) and convex combinations of the last N inputs / inputs so far (Sma, Alma / Ema) — which imply the interval, constant, monotonicity and affine clauses over the reals.',
             'Trusted: as C02/C10. Not decided: the Gaussian kernel values over the live window; rounding.',
             'DESIGN.md §5 C04', 'E4/E5'),
     'C08': ('other', 'static analysis: inertness/monotone-readiness entailment, integer-skeleton constant propagation for warm-up counts, interval/sign guard census',
             'Decides: None-path inertness for all views; monotone readiness for all 38 views by entailment from the inductive class invariant (N symbolic); '
             'warm-up thresholds of the 21 tabled views by constant propagation of the integer/typestate skeleton (floats unknown, must not branch on data) for '
-            'N ≤ 8 (quick) / 48 (thorough); a census showing every float division, log, sqrt and value assertion guarded on its path or in a reviewed exception table.',
-            'Trusted: vg/solve/fsign/skeleton modules, 13 reviewed exception sites (sfa/e_ready.py EXCEPTIONS). Not decided: overflow to inf from large finite inputs, NaN from cancellation. '
+            'N ≤ 8 (quick) / 48 (thorough); a census showing every float division, log, sqrt and value assertion guarded on its path: derived by interval/sign analysis (with case splits) from the guards plus a table of reviewed facts (domain preconditions and state invariants justified elsewhere); a fact never discharges a site by itself.',
+            'Trusted: vg/solve/fsign/skeleton modules, 12 reviewed facts (sfa/e_ready.py ASSUMED) and one conditional exception (BinaryEntropy, tied to its is_nan reset). Not decided: overflow to inf from large finite inputs, NaN from cancellation. '
             'Thresholds are for concrete N in the stated range only.',
             'DESIGN.md §5 C08', 'E2/E3/E7'),
     'C13': ('other', 'static analysis: term matching modulo commutativity, joint case analysis of registers, two-step symbolic composition on the value graph',
-            'WelfordRolling: n := n+1, mean correction divided by the post-update count, cross term uses pre- and post-update mean, population sqrt(s/n); '
+            'WelfordRolling: n := n+1 on a 64-bit counter, mean correction divided by the post-update count, cross term uses pre- and post-update mean, population sqrt(s/n); '
             'Drawdown: per joint case of (peak, trough, max) the peak is the running max, the trough is reset on a new peak, max drawdown is the running max of '
             '(peak−trough)/peak of the updated registers; LnReturn: update(x1);update(x2);last() = Some(ln(x2/x1)) from any prior state.',
             'Trusted: sfa/vg.py and the case expansion. Not decided: equality with the batch definition as a value, error growth over long streams.',
             'DESIGN.md §5 C13', 'E5'),
-    'C09': ('other', 'static analysis: steady-state linear-form extraction (constant-folded coefficients per N), SCC spectral radii, symbolic exp-form and self-normalisation rules',
+    'C09': ('other', 'static analysis: abstract interpretation in a linear-form domain (steady-state extraction with constant-folded coefficients per N, SCC spectral radii; forms from the initial state with one symbol per input), symbolic exp-form and self-normalisation rules',
             'For each of the 9 recursive views and each window length in the enumerated range (quick: 1..32 + {48..256}; thorough: 1..128 + up to 4096) the steady-state update is '
             'extracted as x\' = A x + B u with numeric coefficients and every feedback block has spectral radius < 1; a1 = exp(negative) for all N symbolically; '
-            'TrendFlex/ReFlex outputs are self-normalised with leak 0.96 < 1; Fisher feedback 0.5 behind the ±0.99 clamp.',
+            'TrendFlex/ReFlex outputs are self-normalised with leak 0.96 < 1; Fisher feedback 0.5 behind the ±0.99 clamp; for the five linear members the l1 gain of the forms reported from the initial state does not grow with the stream and the weight of the first inputs decays (S5-history).',
             'Trusted: vg/skeleton/lti modules. Coefficient evaluation is constant propagation of input-independent expressions; no stream is supplied. Not decided: boundedness through '
             'non-linear stages beyond the stated forms, arbitrary chains, N beyond the range (except via the exp-form rule), LaguerreRSI N=1 (inert).',
             'DESIGN.md §5 C09', 'E4/E6'),
-    'C11': ('other', 'static analysis: steady-state linear-form extraction compared, through its impulse response, with the difference equations stated in the property',
+    'C11': ('other', 'static analysis: abstract interpretation in a linear-form domain (steady state and from the initial state) compared with the difference equations stated in the property; sibling cross-check of the Laguerre ladder',
             'The extracted steady-state recurrences of SuperSmoother, RoofingFilter, LaguerreFilter and the smoother inside TrendFlex/ReFlex have the same impulse response as the stated '
             'difference equations for every N in the range (60 samples, rel. tol. 2e-4); alpha/gamma = 2/(N+1); CyberCycle pole radius 1−alpha; Fisher constants; flex normaliser form; '
-            'Fisher window extrema rescanned and covering the newest value; state never depends on the raw argument.',
-            'Trusted: as C09 plus the reference recurrences transcribed from the property text. Not decided: non-linear tails, warm-up/initial-state behaviour, CyberCycle smoothing layout, PFE ratio.',
+            'Fisher window extrema rescanned and covering the newest value; state never depends on the raw argument; SuperSmoother/RoofingFilter/LaguerreFilter: every output from the initial state on equals the stated equation from a zero or first-value initial state (K1-history); CyberCycle gain (1−α/2)² and feedback 2(1−α), −(1−α)²; flex normaliser constants 0.04/0.96 and register exactness; LaguerreRSI stages are renamed copies of each other with γ = 2/(N+1); PFE sign, Fisher MA input.',
+            'Trusted: as C09 plus the reference recurrences transcribed from the property text. Not decided: non-linear tails, initial state of the non-linear members, LaguerreRSI lag convention, CyberCycle smoothing layout, PFE ratio.',
             'DESIGN.md §5 C11', 'E4/E6'),
     'C06': ('other', 'static analysis: loop-nest enumeration with symbolic window values (index coverage, pair counts, weights) + term matching',
             'NET: every pair of window values compared exactly once, pair count = denominator n(n−1)/2, +1/−1/0 for newer >/</= older (n = 2..9 quick, ..24 thorough); '
-            'CenterOfGravity: weight k for the k-th newest value, plain sum in the denominator, constant (n+1)/2, zero-denominator guard; CTI: the five moment sums over the whole '
+            'CenterOfGravity: weight k for the k-th newest value, plain sum in the denominator, constant (n+1)/2, ratio formed exactly when the denominator is non-zero; NET and CoG report exactly the examined expression (no post-processing) and last() returns it unchanged; CTI: the five moment sums over the whole '
             'window with t the enumeration index, Pearson ratio of them, both variance guards > 0.',
             'Trusted: vg loop records, lti index evaluation. Window values are symbolic; only index ranges are enumerated, for full windows of the stated sizes. Not decided: rounding.',
             'DESIGN.md §5 C06', 'E8'),
     'C07': ('other', 'static analysis: interval/sign analysis of last∘update on the value graph + reuse of the Drawdown/NET/Fisher/clip rules',
-            'Only bounds constructed by the code: Tanh, LaguerreRSI, WelfordOnline/Rolling, GTE/LTE, Fisher (ln 199), Drawdown (monotone from 0), NET.',
-            'Declined in so many words: Rsi, MyRSI, HLNormalizer, CTI, PFE, BinaryEntropy, Vsct, Min<=Sma/Alma<=Max, CoG, Drawdown<1, and every "few ulps" clause.',
+            'Only bounds constructed by the code: Tanh, LaguerreRSI, Rsi, WelfordOnline/Rolling, GTE/LTE, Fisher (ln 199), Drawdown (monotone from 0), NET, HLNormalizer (from the tracked-extrema invariant min <= last <= max), Min <= Sma/Alma <= Max (convex combination of the last N inputs, real arithmetic, enumerated N), newest value within Min/Max.',
+            'Declined in so many words: MyRSI, CTI, BinaryEntropy, Vsct, CoG bound, Drawdown<1, and every "few ulps" clause; PFE is a known finding.',
             'DESIGN.md §5 C07', 'E3-float'),
 }
 
